@@ -13,12 +13,17 @@ from __future__ import annotations
 import ast
 
 from .. import tables as T
+from ..astutil import local_assignments
 from ..cfg import walk_shallow
 from ..core import AnalysisError, Report, norm
 from ..index import ClassInfo, FuncInfo
 
 MOD = "pennylane/ftqc/pauli_tracker.py"
+DEC = "pennylane/ftqc/decomposition.py"
 R = "R-C74-symp"
+RR = "R-C74-reset"
+RW = "R-C74-wireorder"
+MEASURES = {"measure", "measure_x", "measure_y", "measure_arbitrary_basis"}
 
 
 def _positional_map(params, rows):
@@ -82,6 +87,227 @@ def _arg_index(e, bind, xzp):
     return None
 
 
+# ---------------------------------------------------------------------------------------------
+# R-C74-reset
+
+
+def _parents(tree):
+    out = {}
+    for p_ in ast.walk(tree):
+        for c in ast.iter_child_nodes(p_):
+            out[c] = p_
+    return out
+
+
+def _owner(ix, m, node):
+    best = None
+    for f in ix.funcs_in(m):
+        if f.node.lineno <= node.lineno <= (f.node.end_lineno or 0):
+            if best is None or f.node.lineno >= best.node.lineno:
+                best = f
+    return best
+
+
+def _reset_kw(call: ast.Call):
+    """-> ("true" | "false" | "absent" | "dynamic", text)"""
+    if any(k.arg is None for k in call.keywords):
+        return "dynamic", "**kwargs"
+    for k in call.keywords:
+        if k.arg == "reset":
+            ok, v = T.literal(k.value)
+            if ok and v is True:
+                return "true", "reset=True"
+            if ok and not v:
+                return "false", f"reset={v!r}"
+            return "dynamic", f"reset={norm(k.value)}"
+    return "absent", "no reset argument"
+
+
+def _check_reset(ix, rep):
+    m = ix.module(DEC)
+    rep.analysed(m.relpath)
+
+    def resolves_to(expr, names):
+        r = ix.resolve_expr(m, expr) if isinstance(expr, (ast.Name, ast.Attribute)) else None
+        return r.name if isinstance(r, FuncInfo) and r.name in names and r.module.name.startswith("pennylane.") else None
+
+    n_sites = 0
+    why = ("the measured graph-state wire is handed back to the qubit manager as free and in |0>, but stays in |1> whenever the outcome is 1: the next "
+           "MBQC gate that recycles it builds its resource state on a dirty qubit and the byproduct corrections no longer match (history-dependent corruption)")
+    for call in [n for n in ast.walk(m.tree) if isinstance(n, ast.Call)]:
+        f = _owner(ix, m, call)
+        qn = f.qualname if f else "<module>"
+        # ---- direct measurement ------------------------------------------------------------
+        name = resolves_to(call.func, MEASURES)
+        if name:
+            n_sites += 1
+            rep.analysed(m.relpath, qn)
+            kind, txt = _reset_kw(call)
+            where = f"{m.relpath}:{qn} L{call.lineno} {norm(call)[:60]}"
+            if kind == "true":
+                rep.proved(RR, where, "reset=True on the call")
+            elif kind == "dynamic":
+                rep.unknown(RR, where, f"{txt} is not a literal")
+            else:
+                rep.refuted(RR, m.relpath, qn, norm(call), f"`{norm(call)}` measures without resetting ({txt}); every other pattern measurement passes reset=True — {why}", line=call.lineno)
+            continue
+        # ---- cond_measure(m, f_true, f_false)(..., reset=True) ---------------------------------
+        if isinstance(call.func, ast.Call) and resolves_to(call.func.func, {"cond_measure"}):
+            inner = call.func
+            okind, otxt = _reset_kw(call)
+            branches = list(inner.args[1:3]) + [k.value for k in inner.keywords if k.arg in ("true_fn", "false_fn")]
+            defs = local_assignments(f.node) if f else {}
+            for b in branches:
+                n_sites += 1
+                where = f"{m.relpath}:{qn} L{b.lineno} cond_measure branch {norm(b)[:50]}"
+                e = b
+                if isinstance(e, ast.Name) and e.id in defs and len(defs[e.id]) == 1 and defs[e.id][0][1] is not None:
+                    e = defs[e.id][0][1]
+                bkind = None
+                if isinstance(e, ast.Call) and isinstance(e.func, (ast.Name, ast.Attribute)) and norm(e.func).split(".")[-1] == "partial" and e.args and resolves_to(e.args[0], MEASURES):
+                    bkind, btxt = _reset_kw(e)
+                elif resolves_to(e, MEASURES):
+                    bkind, btxt = "absent", "bare measurement function"
+                if bkind is None:
+                    rep.unknown(RR, where, "branch is not partial(<measurement>, …) / a measurement function")
+                    continue
+                kind, txt = (okind, otxt + " on the cond_measure application") if okind != "absent" else (bkind, btxt + " on the partial")
+                if kind == "true":
+                    rep.proved(RR, where, txt)
+                elif kind == "dynamic":
+                    rep.unknown(RR, where, f"{txt} is not a literal")
+                else:
+                    rep.refuted(RR, m.relpath, qn, norm(b), f"conditional measurement branch `{norm(b)}` of `{norm(call)[:80]}…` carries reset=True neither on the partial nor on the "
+                                f"cond_measure application ({txt}) — {why}", line=b.lineno)
+    rep.floor("mid-circuit measurements in the MBQC pattern functions", n_sites, 62)
+
+
+# ---------------------------------------------------------------------------------------------
+# R-C74-wireorder
+
+_REORDER_CALLS = {"sorted", "set", "frozenset", "reversed"}
+_KEEP_CALLS = {"list", "tuple", "Wires"}
+_INSENSITIVE = {"len", "max", "min", "sum", "any", "all", "bool"}
+
+
+def _check_wireorder(ix, rep, m):
+    n_sources = 0
+    for f in [f for f in ix.funcs_in(m) if f.parent is None]:
+        fn = f.node
+        par = _parents(fn)
+        qs = {a.arg for a in fn.args.args if a.annotation is not None and norm(a.annotation).split(".")[-1] == "QuantumScript"}
+
+        def is_source(e):
+            return isinstance(e, ast.Attribute) and e.attr == "wires" and not (isinstance(e.value, ast.Name) and e.value.id in qs)
+
+        tainted = set()
+
+        def derived(e):
+            """e denotes the wires of an operator, in the operator's order"""
+            if is_source(e):
+                return True
+            if isinstance(e, ast.Name):
+                return e.id in tainted
+            if isinstance(e, ast.Call) and isinstance(e.func, ast.Name) and e.func.id in _KEEP_CALLS and len(e.args) == 1:
+                return derived(e.args[0])
+            if isinstance(e, ast.Call) and isinstance(e.func, ast.Attribute) and e.func.attr in ("tolist", "copy") and not e.args:
+                return derived(e.func.value)
+            if isinstance(e, ast.Attribute) and e.attr == "labels":
+                return derived(e.value)
+            if isinstance(e, ast.Subscript) and isinstance(e.slice, ast.Slice) and not _negative_step(e.slice):
+                return derived(e.value)
+            return False
+
+        changed = True
+        while changed:
+            changed = False
+            for n in ast.walk(fn):
+                if isinstance(n, ast.Assign) and len(n.targets) == 1 and isinstance(n.targets[0], ast.Name) and n.targets[0].id not in tainted and derived(n.value):
+                    tainted.add(n.targets[0].id)
+                    changed = True
+
+        def use_kind(e):
+            """how the value of expression node e is consumed: 'insensitive' | 'positional' | 'unknown' | ('name', v)"""
+            p_ = par.get(e)
+            if isinstance(p_, ast.Call) and isinstance(p_.func, ast.Name) and e in p_.args:
+                if p_.func.id in _INSENSITIVE:
+                    return "insensitive"
+                if p_.func.id in _KEEP_CALLS | {"enumerate", "zip", "iter"}:
+                    return "positional"
+                return "positional"
+            if isinstance(p_, ast.Call) and (e in p_.args or any(k.value is e for k in p_.keywords)):
+                return "positional"
+            if isinstance(p_, ast.Compare) and e in p_.comparators and all(isinstance(o, (ast.In, ast.NotIn)) for o in p_.ops):
+                return "insensitive"
+            if isinstance(p_, ast.Subscript) and p_.value is e:
+                return "positional"
+            if isinstance(p_, ast.comprehension) and p_.iter is e:
+                return "positional"
+            if isinstance(p_, ast.Starred) or isinstance(p_, ast.Return):
+                return "positional"
+            if isinstance(p_, ast.Assign) and p_.value is e:
+                t = p_.targets[0]
+                if len(p_.targets) == 1 and isinstance(t, ast.Name):
+                    return ("name", t.id)
+                return "positional"  # tuple unpacking
+            if isinstance(p_, ast.For) and p_.iter is e:
+                return "unknown"
+            return "unknown"
+
+        def name_uses(v, skip=()):
+            kinds = []
+            for n in ast.walk(fn):
+                if isinstance(n, ast.Name) and n.id == v and isinstance(n.ctx, ast.Load) and n not in skip:
+                    k = use_kind(n)
+                    kinds.append(("unknown" if isinstance(k, tuple) else k, n))
+            return kinds
+
+        reordered_sources = set()
+        sites = []
+        for n in ast.walk(fn):
+            if isinstance(n, ast.Call) and isinstance(n.func, ast.Name) and n.func.id in _REORDER_CALLS and n.args and derived(n.args[0]):
+                sites.append((n, f"{n.func.id}(…)", n.args[0], ()))
+            elif isinstance(n, ast.Subscript) and isinstance(n.slice, ast.Slice) and _negative_step(n.slice) and derived(n.value):
+                sites.append((n, "[::-1]", n.value, ()))
+            elif isinstance(n, ast.Call) and isinstance(n.func, ast.Attribute) and n.func.attr in ("sort", "reverse") and isinstance(n.func.value, ast.Name) and n.func.value.id in tainted:
+                sites.append((n, f".{n.func.attr}()", n.func.value, (n.func.value,)))
+        for node, what, arg, skip in sites:
+            for x in ast.walk(arg):
+                if is_source(x):
+                    reordered_sources.add(x)
+            where = f"{m.relpath}:{f.qualname} L{node.lineno} {norm(node)[:60]}"
+            k = ("name", arg.id) if skip else use_kind(node)
+            uses = name_uses(k[1], skip) if isinstance(k, tuple) else [(k, node)]
+            pos = [u for kk, u in uses if kk == "positional"]
+            if pos:
+                u = pos[0]
+                ctx = par.get(u)
+                while ctx is not None and not isinstance(ctx, (ast.stmt, ast.ListComp, ast.GeneratorExp)):
+                    ctx = par.get(ctx)
+                st = node
+                while not isinstance(st, ast.stmt):
+                    st = par.get(st)
+                rep.refuted(RW, m.relpath, f.qualname, st,
+                            f"`{norm(node)}` re-orders the wires of an operator and the result is used positionally (L{u.lineno}: `{norm(ctx)[:80]}`): CNOT is not "
+                            f"symmetric, so for CNOT(wires=[1, 0]) control and target are exchanged on the way to _commute_cnot / the xz record", line=node.lineno)
+            elif uses and all(kk == "insensitive" for kk, _ in uses):
+                rep.proved(RW, where, f"{what} only feeds order-insensitive uses")
+            else:
+                rep.unknown(RW, where, f"{what} of operator wires: uses not classified as positional or order-insensitive")
+        for n in ast.walk(fn):
+            if is_source(n):
+                n_sources += 1
+                if n not in reordered_sources:
+                    rep.proved(RW, f"{m.relpath}:{f.qualname} L{n.lineno} {norm(n)}", "reaches its uses without sorted/set/reversed/.sort()")
+        rep.analysed(m.relpath, f.qualname)
+    rep.floor("reads of an operator's / measurement's .wires in pauli_tracker.py", n_sources, 5)
+
+
+def _negative_step(sl: ast.Slice):
+    ok, v = T.literal(sl.step) if sl.step is not None else (False, None)
+    return bool(ok and isinstance(v, int) and v < 0)
+
+
 def check(ctx):
     ix = ctx.index
     rep = Report("C74", "propagating Pauli byproducts through the supported Clifford gates satisfies C P C^dagger = P' (up to phase, "
@@ -92,6 +318,12 @@ def check(ctx):
              "inverse; xz_to_pauli/pauli_to_xz index them in (x, z) order; every gate of _CLIFFORD_GATES_SUPPORTED has its own branch")
     rep.assume("the frame is the exponent vector of X^x Z^z per wire, wires in the operator's wire order (control first for CNOT), "
                "and `new_xz = C xz C^dagger` as the docstring of commute_clifford_op states")
+    rep.rule(RR, "every mid-circuit measurement queued by ftqc/decomposition.py (measure, measure_x, measure_y, measure_arbitrary_basis called directly, "
+             "or as partial(...) branches of cond_measure) carries the literal reset=True — on the call, on the partial, or on the cond_measure application — "
+             "because the measured graph-state wire is released and recycled by the next gate")
+    rep.rule(RW, "in ftqc/pauli_tracker.py no value derived from an operator's (or measurement's) .wires that is used positionally (indexing, unpacking, "
+             "enumerate/zip, building the xz list, call argument) passes through sorted/set/frozenset/reversed/[::-1]/.sort()/.reverse(): CNOT is not "
+             "symmetric, the (control, target) order must reach _commute_cnot unchanged")
     rep.assume("graph-state conversion and the byproduct corrections per measurement history are runtime behaviour and are not analysed")
 
     m = ix.module(MOD)
@@ -244,6 +476,9 @@ def check(ctx):
             rep.refuted(R, m.relpath, "_CLIFFORD_GATES_SUPPORTED", norm(e.value_node),
                         f"{name} is declared supported (and routed to commute_clifford_op by _get_xz_record) but commute_clifford_op has no branch for it", line=getattr(e.value_node, "lineno", 0))
     rep.floor("entries of _CLIFFORD_GATES_SUPPORTED", n_sup, 3)
+
+    _check_wireorder(ix, rep, m)
+    _check_reset(ix, rep)
     return rep
 
 
